@@ -189,3 +189,304 @@ pub proof fn lemma_update_sup(g: G, dd: Seq<Set<usize>>, i: usize, s: Set<usize>
         if k == i { assert(in_step(g, dd, i, d)); } else { assert(d2[k as int] == dd[k as int]); }
     }
 }
+
+// ---------------------------------------------------------------------------------------------
+// order-theoretic facts about dominance (used for immediate dominators and frontiers)
+
+pub open spec fn prefix_to(s: Seq<usize>, k: int) -> Seq<usize> { s.subrange(0, k + 1) }
+
+pub proof fn lemma_prefix_path(g: G, s: Seq<usize>, k: int)
+    requires is_path(g, s), 0 <= k < s.len()
+    ensures is_path(g, prefix_to(s, k)), prefix_to(s, k).last() == s[k], prefix_to(s, k).len() == k + 1
+{
+    let t = prefix_to(s, k);
+    assert forall|m: int| 0 <= m < t.len() implies (#[trigger] t[m]) < g.len() by { assert(t[m] == s[m]); }
+    assert forall|m: int| 0 <= m < t.len() - 1 implies g[#[trigger] t[m + 1] as int].contains(t[m]) by {
+        assert(t[m + 1] == s[m + 1]);
+        assert(t[m] == s[m]);
+    }
+    assert(t[0] == s[0]);
+}
+
+pub proof fn lemma_dom_trans(g: G, a: usize, b: usize, c: usize)
+    requires dom(g, a, b), dom(g, b, c)
+    ensures dom(g, a, c)
+{
+    assert forall|s: Seq<usize>| is_path(g, s) && s.last() == c implies #[trigger] s.contains(a) by {
+        assert(s.contains(b));
+        let k = choose|k: int| 0 <= k < s.len() && s[k] == b;
+        lemma_prefix_path(g, s, k);
+        let t = prefix_to(s, k);
+        assert(t.contains(a));
+        let m = choose|m: int| 0 <= m < t.len() && t[m] == a;
+        assert(s[m] == a);
+    }
+}
+
+// from a path to a that is longer than needed we get a strictly shorter one, if a and b dominate each other
+proof fn lemma_antisym_descent(g: G, a: usize, b: usize, s: Seq<usize>)
+    requires dom(g, a, b), dom(g, b, a), a != b, is_path(g, s), s.last() == a
+    ensures false
+    decreases s.len()
+{
+    assert(s.contains(b));
+    let k = choose|k: int| 0 <= k < s.len() && s[k] == b;
+    assert(k < s.len() - 1) by { if k == s.len() - 1 { assert(s[k] == a); } }
+    lemma_prefix_path(g, s, k);
+    let t = prefix_to(s, k);
+    assert(t.contains(a));
+    let m = choose|m: int| 0 <= m < t.len() && t[m] == a;
+    assert(s[m] == a);
+    lemma_prefix_path(g, s, m);
+    let u = prefix_to(s, m);
+    assert(u.len() < s.len());
+    lemma_antisym_descent(g, a, b, u);
+}
+
+pub proof fn lemma_dom_antisym(g: G, a: usize, b: usize)
+    requires wf(g), a < g.len(), dom(g, a, b), dom(g, b, a)
+    ensures a == b
+{
+    if a != b {
+        assert(reachable(g, a));
+        let s = choose|s: Seq<usize>| is_path(g, s) && #[trigger] s.last() == a;
+        lemma_antisym_descent(g, a, b, s);
+    }
+}
+
+pub proof fn lemma_entry_dominates(g: G, i: usize)
+    ensures dom(g, 0, i)
+{
+    assert forall|s: Seq<usize>| is_path(g, s) && s.last() == i implies #[trigger] s.contains(0usize) by {
+        assert(s[0] == 0);
+    }
+}
+
+// ---- chain lemma: two strict dominators of the same node are comparable
+pub open spec fn last_ab(s: Seq<usize>, a: usize, b: usize, hi: int) -> int
+    decreases hi + 1
+{
+    if hi < 0 { -1 } else if s[hi] == a || s[hi] == b { hi } else { last_ab(s, a, b, hi - 1) }
+}
+proof fn lemma_last_ab(s: Seq<usize>, a: usize, b: usize, hi: int)
+    requires -1 <= hi < s.len()
+    ensures
+        -1 <= last_ab(s, a, b, hi) <= hi,
+        last_ab(s, a, b, hi) >= 0 ==> (s[last_ab(s, a, b, hi)] == a || s[last_ab(s, a, b, hi)] == b),
+        forall|k: int| last_ab(s, a, b, hi) < k <= hi ==> s[k] != a && s[k] != b,
+    decreases hi + 1
+{
+    if hi >= 0 && !(s[hi] == a || s[hi] == b) { lemma_last_ab(s, a, b, hi - 1); }
+}
+
+// r is a path to s[m]; r ++ s[m+1..] is a path to s.last()
+proof fn lemma_splice(g: G, r: Seq<usize>, s: Seq<usize>, m: int) -> (t: Seq<usize>)
+    requires is_path(g, r), is_path(g, s), 0 <= m < s.len(), r.last() == s[m]
+    ensures is_path(g, t), t.last() == s.last(), t == r + s.subrange(m + 1, s.len() as int)
+{
+    let suf = s.subrange(m + 1, s.len() as int);
+    let t = r + suf;
+    assert forall|k: int| 0 <= k < t.len() implies (#[trigger] t[k]) < g.len() by {
+        if k < r.len() { assert(t[k] == r[k]); } else { assert(t[k] == s[m + 1 + (k - r.len())]); }
+    }
+    assert forall|k: int| 0 <= k < t.len() - 1 implies g[#[trigger] t[k + 1] as int].contains(t[k]) by {
+        if k + 1 < r.len() { assert(t[k + 1] == r[k + 1]); assert(t[k] == r[k]); }
+        else if k + 1 == r.len() { assert(t[k] == r[k]); assert(t[k + 1] == s[m + 1]); assert(r[k] == s[m]); assert(g[s[m + 1] as int].contains(s[m])); }
+        else { let j = m + 1 + (k - r.len()); assert(t[k] == s[j]); assert(t[k + 1] == s[j + 1]); assert(g[s[j + 1] as int].contains(s[j])); }
+    }
+    assert(t[0] == r[0]);
+    if suf.len() == 0 { assert(m == s.len() - 1); assert(t.last() == r.last()); } else { assert(t.last() == s.last()); }
+    t
+}
+
+pub proof fn lemma_chain(g: G, a: usize, b: usize, i: usize)
+    requires wf(g), i < g.len(), sdom(g, a, i), sdom(g, b, i)
+    ensures dom(g, a, b) || dom(g, b, a)
+{
+    if !dom(g, a, b) && !dom(g, b, a) {
+        assert(reachable(g, i));
+        let p = choose|p: Seq<usize>| is_path(g, p) && #[trigger] p.last() == i;
+        let q = choose|q: Seq<usize>| is_path(g, q) && q.last() == b && !q.contains(a);
+        let r = choose|r: Seq<usize>| is_path(g, r) && r.last() == a && !r.contains(b);
+        let hi = p.len() - 1;
+        lemma_last_ab(p, a, b, hi);
+        let m = last_ab(p, a, b, hi);
+        assert(p.contains(a));
+        let ka = choose|k: int| 0 <= k < p.len() && p[k] == a;
+        assert(m >= 0) by { if m < 0 { assert(p[ka] != a); } }
+        assert(m < hi) by { assert(p[hi] == i); }
+        if p[m] == a {
+            let t = lemma_splice(g, r, p, m);
+            assert(t.contains(b));
+            let k = choose|k: int| 0 <= k < t.len() && t[k] == b;
+            if k < r.len() { assert(t[k] == r[k]); assert(r.contains(b)); }
+            else { assert(t[k] == p[m + 1 + (k - r.len())]); }
+            assert(false);
+        } else {
+            let t = lemma_splice(g, q, p, m);
+            assert(t.contains(a));
+            let k = choose|k: int| 0 <= k < t.len() && t[k] == a;
+            if k < q.len() { assert(t[k] == q[k]); assert(q.contains(a)); }
+            else { assert(t[k] == p[m + 1 + (k - q.len())]); }
+            assert(false);
+        }
+    }
+}
+
+// ---- a finite non-empty set of strict dominators of i has a closest element (dominated by all the others)
+pub proof fn lemma_closest(g: G, i: usize, c: Set<usize>) -> (m: usize)
+    requires wf(g), i < g.len(), c.finite(), c.len() > 0, forall|x: usize| c.contains(x) ==> x < g.len() && sdom(g, x, i)
+    ensures c.contains(m), forall|k: usize| c.contains(k) ==> #[trigger] dom(g, k, m)
+    decreases c.len()
+{
+    let x = c.choose();
+    let rest = c.remove(x);
+    if rest.len() == 0 {
+        assert forall|k: usize| c.contains(k) implies #[trigger] dom(g, k, x) by {
+            if k != x { assert(rest.contains(k)); }
+            lemma_dom_refl(g, x);
+        }
+        x
+    } else {
+        let m0 = lemma_closest(g, i, rest);
+        lemma_chain(g, m0, x, i);
+        if dom(g, m0, x) {
+            assert forall|k: usize| c.contains(k) implies #[trigger] dom(g, k, x) by {
+                if k == x { lemma_dom_refl(g, x); } else { assert(rest.contains(k)); lemma_dom_trans(g, k, m0, x); }
+            }
+            x
+        } else {
+            assert forall|k: usize| c.contains(k) implies #[trigger] dom(g, k, m0) by {
+                if k == x { } else { assert(rest.contains(k)); }
+            }
+            m0
+        }
+    }
+}
+
+// the strict dominators of a node other than the entry include the entry
+pub proof fn lemma_has_strict_dominator(g: G, i: usize)
+    requires i != 0
+    ensures sdom(g, 0, i)
+{
+    lemma_entry_dominates(g, i);
+}
+
+// ---------------------------------------------------------------------------------------------
+// immediate dominators
+
+pub open spec fn is_sd_set(g: G, i: usize, c: Set<usize>) -> bool { forall|d: usize| c.contains(d) <==> d < g.len() && sdom(g, d, i) }
+pub open spec fn dom_facts(g: G, doms: Seq<HashSet<usize>>) -> bool {
+    doms.len() == g.len()
+    && forall|i: usize, d: usize| i < g.len() ==> (#[trigger] doms[i as int]@.contains(d) <==> d < g.len() && dom(g, d, i))
+}
+pub open spec fn idom_ok(g: G, idoms: Seq<Option<usize>>, upto: int) -> bool {
+    forall|x: usize| 0 <= x < upto ==> ((#[trigger] idoms[x as int]) is None <==> x == 0) && (idoms[x as int] is Some ==> is_idom(g, idoms[x as int].unwrap(), x))
+}
+pub open spec fn succ_ok(g: G, idoms: Seq<Option<usize>>, succ: Seq<HashSet<usize>>, upto: int) -> bool {
+    forall|j: usize, x: usize| j < g.len() ==> (#[trigger] succ[j as int]@.contains(x) <==> x < upto && idoms[x as int] == Some(j))
+}
+// `all_dominators` while the candidates `seen` have been handled
+pub open spec fn a_sound(g: G, a: Set<usize>, seen: Set<usize>) -> bool {
+    forall|x: usize| a.contains(x) ==> x < g.len() && exists|c: usize| seen.contains(c) && #[trigger] sdom(g, x, c)
+}
+pub open spec fn a_complete(g: G, a: Set<usize>, seen: Set<usize>) -> bool {
+    forall|c: usize, x: usize| seen.contains(c) && x < g.len() && #[trigger] sdom(g, x, c) ==> a.contains(x)
+}
+
+// a candidate that is already in the set has all its strict dominators in the set (the `continue` shortcut)
+pub proof fn lemma_skip_closed(g: G, a: Set<usize>, seen: Set<usize>, j: usize)
+    requires wf(g), a_sound(g, a, seen), a_complete(g, a, seen), a.contains(j), j < g.len(),
+        forall|c: usize| seen.contains(c) ==> c < g.len()
+    ensures a_sound(g, a, seen.insert(j)), a_complete(g, a, seen.insert(j))
+{
+    let c0 = choose|c: usize| seen.contains(c) && #[trigger] sdom(g, j, c);
+    assert forall|c: usize, x: usize| seen.insert(j).contains(c) && x < g.len() && #[trigger] sdom(g, x, c) implies a.contains(x) by {
+        if c == j && !seen.contains(j) {
+            lemma_dom_trans(g, x, j, c0);
+            if x == c0 { lemma_dom_antisym(g, c0, j); }
+            assert(sdom(g, x, c0));
+        }
+    }
+    assert forall|x: usize| a.contains(x) implies x < g.len() && exists|c: usize| seen.insert(j).contains(c) && #[trigger] sdom(g, x, c) by {
+        let c = choose|c: usize| seen.contains(c) && #[trigger] sdom(g, x, c);
+        assert(seen.insert(j).contains(c));
+    }
+}
+
+pub proof fn lemma_add_candidate(g: G, a: Set<usize>, seen: Set<usize>, j: usize, dom_j: Set<usize>)
+    requires wf(g), a_sound(g, a, seen), a_complete(g, a, seen), j < g.len(),
+        forall|d: usize| dom_j.contains(d) <==> d < g.len() && dom(g, d, j)
+    ensures a_sound(g, dom_j.remove(j).union(a), seen.insert(j)), a_complete(g, dom_j.remove(j).union(a), seen.insert(j))
+{
+    let a2 = dom_j.remove(j).union(a);
+    let s2 = seen.insert(j);
+    assert forall|x: usize| a2.contains(x) implies x < g.len() && exists|c: usize| s2.contains(c) && #[trigger] sdom(g, x, c) by {
+        if a.contains(x) {
+            let c = choose|c: usize| seen.contains(c) && #[trigger] sdom(g, x, c);
+            assert(s2.contains(c));
+        } else {
+            assert(s2.contains(j) && sdom(g, x, j));
+        }
+    }
+    assert forall|c: usize, x: usize| s2.contains(c) && x < g.len() && #[trigger] sdom(g, x, c) implies a2.contains(x) by {
+        if c == j { assert(dom_j.contains(x)); }
+    }
+}
+
+// candidates minus their strict dominators is exactly the closest strict dominator, which is the immediate dominator
+pub proof fn lemma_closest_unique(g: G, i: usize, c0: Set<usize>, a: Set<usize>) -> (m: usize)
+    requires wf(g), i < g.len(), is_sd_set(g, i, c0), c0.finite(), c0.len() > 0, a_sound(g, a, c0), a_complete(g, a, c0)
+    ensures c0.difference(a) =~= set![m], is_idom(g, m, i)
+{
+    let m = lemma_closest(g, i, c0);
+    assert(!a.contains(m)) by {
+        if a.contains(m) {
+            let c = choose|c: usize| c0.contains(c) && #[trigger] sdom(g, m, c);
+            assert(dom(g, c, m));
+            lemma_dom_antisym(g, c, m);
+        }
+    }
+    assert forall|x: usize| c0.difference(a).contains(x) implies x == m by {
+        assert(dom(g, x, m));
+        if x != m { assert(sdom(g, x, m)); assert(a.contains(x)); }
+    }
+    assert(is_idom(g, m, i)) by {
+        assert forall|k: usize| k < g.len() && sdom(g, k, i) implies #[trigger] dom(g, k, m) by { assert(c0.contains(k)); }
+    }
+    m
+}
+
+// at most one strict dominator: it is the entry (or there is none and the node is the entry)
+pub proof fn lemma_small_candidates(g: G, i: usize, c0: Set<usize>)
+    requires wf(g), i < g.len(), is_sd_set(g, i, c0), c0.finite(), c0.len() <= 1
+    ensures
+        i == 0 ==> c0 =~= Set::<usize>::empty(),
+        i != 0 ==> c0 =~= set![0usize] && is_idom(g, 0, i),
+{
+    if i == 0 {
+        assert forall|d: usize| !c0.contains(d) by { if c0.contains(d) { lemma_dom_entry(g, d); } }
+    } else {
+        lemma_has_strict_dominator(g, i);
+        assert(c0.contains(0usize));
+        assert forall|d: usize| c0.contains(d) implies d == 0 by {
+            if d != 0 {
+                let two = set![0usize, d];
+                assert(two.subset_of(c0));
+                vstd::set_lib::lemma_len_subset(two, c0);
+                assert(two.len() == 2) by { assert(set![0usize].insert(d) =~= two); assert(!set![0usize].contains(d)); }
+            }
+        }
+        assert(is_idom(g, 0, i)) by {
+            assert forall|k: usize| k < g.len() && sdom(g, k, i) implies #[trigger] dom(g, k, 0) by { assert(c0.contains(k)); lemma_dom_refl(g, 0); }
+        }
+    }
+}
+
+// the entry has no strict dominators; every other node has one, so more than one candidate only happens for i != 0
+pub proof fn lemma_entry_no_candidates(g: G, c: Set<usize>)
+    requires wf(g), is_sd_set(g, 0, c)
+    ensures c =~= Set::<usize>::empty()
+{
+    assert forall|d: usize| !c.contains(d) by { if c.contains(d) { lemma_dom_entry(g, d); } }
+}
